@@ -58,6 +58,8 @@ def select(prop_id, cfg, res):
         if in_scope and 'safety' in classes:
             obligations.append((u['path'], 'safety:*', 'safety'))
         for l in labs:
+            if labels_props(l) == {'C15'} and prop_id != 'C15':
+                continue   # allocation-bound clauses are read by C15 only
             mine = prop_id in labels_props(l)
             if label_re is not None:
                 ok = (mine or (in_scope and cfg.get('all_labels_in_scope'))) and label_re.search(l)
@@ -81,6 +83,8 @@ def failing(prop_id, cfg, res, obligations):
         if f['cls'] == 'safety':
             if 'safety:*' in o: out.append(f)
         elif f['cls'] == 'post':
+            if labels_props(f.get('label') or '') == {'C15'} and prop_id != 'C15':
+                continue
             if f['oid'] in o: out.append(f)
             elif f['label'] is None and 'post' in classes and 'safety:*' in o: out.append(f)   # e.g. vstd trait postcondition
         else:
@@ -140,6 +144,14 @@ def main(argv):
     rc = 0
     for f, k in kf:
         print('KNOWN-FINDING: property=%s %s %s -- %s' % (prop_id, f['unit'], f['oid'], k.get('what', '')))
+    # vacuity guard: a few units of this property are re-checked with `ensures false` appended; the canary must FAIL
+    canaries = run_canaries(prop_id, scope, res, seed, 3 if tier == 'quick' else 12)
+    bad = [c for c in canaries if c['verified_false']]
+    if bad:
+        for c in bad:
+            print('TOOL-ERROR: vacuous contract: `ensures false` verifies for %s' % c['unit'])
+        write_evidence(prop_id, cfg, tier, seed, res, scope, obligations, fails, kf, viol, dict(canaries=canaries), time.time() - t0)
+        return 2
     extra = {}
     if tier == 'thorough' and cfg.get('thorough'):
         import thorough
@@ -165,11 +177,34 @@ def main(argv):
         for t in tool[:10]:
             print('TOOL-ERROR: %s' % t)
         rc = 2
+    extra['canaries'] = canaries
     write_evidence(prop_id, cfg, tier, seed, res, scope, obligations, fails, kf, viol, extra, time.time() - t0)
     if rc == 0:
         print('OK property=%s obligations=%d discharged=%d known_findings=%d units=%d (%s, verus %.1fs, cache %s)' % (
             prop_id, len(obligations) - len(kf), len(obligations) - len(kf), len(kf), len(scope), tier, res['verus_wall'], res['cache']))
     return rc
+
+
+def run_canaries(prop_id, scope, res, seed, n):
+    import random
+    cands = [u for u in scope if u['kind'] == 'verified' and res['clauses'].get(u['path'])]
+    if not cands:
+        cands = [u for u in scope if u['kind'] == 'verified']
+    rnd = random.Random(seed * 7919 + sum(map(ord, prop_id)))
+    picks = rnd.sample(cands, min(n, len(cands)))
+    out = []
+    for u in picks:
+        fn = u['path'].split('@')[0].split('::', 1)[1]
+        parts = fn.split('::')
+        # impl methods: Type::method ; trait impl methods Type::Trait::method -> Type::method
+        if len(parts) == 3: fn = parts[0] + '::' + parts[2]
+        r = engine.build(canary=u['path'], verify_only=['push::' + u['mod']], verify_fn=fn)
+        if 'tool_error' in r:
+            out.append(dict(unit=u['path'], verified_false=False, note='tool error: ' + r['tool_error'])); continue
+        failed_here = any(f['unit'] == u['path'] for f in r['fails'])
+        ran = (r.get('verified') or 0) + (r.get('errors') or 0) > 0
+        out.append(dict(unit=u['path'], verified_false=bool(ran and not failed_here and not r['tool']), ran=ran))
+    return out
 
 
 def write_evidence(prop_id, cfg, tier, seed, res, scope, obligations, fails, kf, viol, extra, wall):
@@ -221,6 +256,7 @@ def write_evidence(prop_id, cfg, tier, seed, res, scope, obligations, fails, kf,
             not_decided=cfg.get('not_decided', []),
             bounded_stand_ins=extra.get('bounded', []),
             kani=extra.get('kani', []),
+            vacuity_canaries=extra.get('canaries', []),
             explanation=cfg.get('explanation', ''),
         ),
         assumptions=cfg.get('assumptions', []) + GLOBAL_ASSUMPTIONS,
